@@ -28,6 +28,8 @@ type Config struct {
 	Only       string
 	Verbose    bool
 	ViolCap    int
+	PreemptBound int
+	SchedRepeat  int
 }
 
 type ObsVal struct {
@@ -46,6 +48,7 @@ type ReplayCase struct {
 	ExpectFail  []string `json:"expect_fail,omitempty"`
 	ExpectPanic string   `json:"expect_panic,omitempty"`
 	Tags        []string `json:"tags,omitempty"`
+	Repeat      int      `json:"repeat,omitempty"` // schedule-dependent: native runs to attempt
 }
 
 type PathResult struct {
@@ -150,6 +153,11 @@ func (in *Interp) resetPath(prefix []Decision) {
 	in.tags = nil
 	in.extInit = map[*ssa.Package]bool{}
 	in.onceDone = map[string]bool{}
+	in.heldMutex = map[string]bool{}
+	in.lastStore = map[string]int{}
+	in.atomicSeq = 0
+	in.sched = nil
+	in.parRegions = 0
 	in.solver.asserted = 0
 }
 
@@ -231,6 +239,12 @@ func (in *Interp) runPath(h *ssa.Function, prefix []Decision, sample bool) (res 
 			rc.ExpectFail = []string{v.Label}
 			if v.Kind == "race" {
 				rc.ExpectFail = nil
+			}
+			if in.parRegions > 0 {
+				rc.Repeat = in.cfg.SchedRepeat
+				if v.Kind == "race" {
+					rc.Repeat = 16 // the detector is happens-before based: no lucky interleaving needed
+				}
 			}
 			res.Violations = append(res.Violations, ViolationCase{Label: v.Label, Kind: v.Kind, Msg: v.Msg, Case: rc})
 		}
